@@ -141,11 +141,11 @@ Definition wf_inputs (started : list flow) (issued : list sealed) (redir : list 
   (forall f, In f started -> on_host host (redir_tab redir (f_redirect f)) = true) /\
   on_host host (redir_tab redir []) = true.
 
-Lemma flow_model_judged canon started issued r redir o :
+Lemma flow_model_judged canon strict started issued r redir o :
   wf_inputs started issued redir (cb_host r) ->
-  flow_mismatch canon r redir o = false ->
-  let j := judge (CFlow canon started issued r redir o) in
-  j = 0 \/ (j = 101 /\ canon = false) \/ j = 102.
+  flow_mismatch canon strict r redir o = false ->
+  let j := judge (CFlow canon strict started issued r redir o) in
+  j = 0 \/ (j = 101 /\ canon = false) \/ (j = 102 /\ strict = false).
 Proof.
   intros [W1 [W2 [W3 W4]]] Hm. cbn [judge]. rewrite Hm. unfold code.
   unfold flow_mismatch in Hm. apply orb_false_iff in Hm as [Hrc Hm]. apply negb_false_iff in Hrc.
@@ -153,13 +153,13 @@ Proof.
   destruct (flow_holds started issued r redir o) eqn:Hh; [left; reflexivity|]. right.
   unfold flow_holds in Hh. apply orb_false_iff in Hh as [Hd Hh]. apply negb_false_iff in Hd.
   unfold flow_known. destruct (fo_session o) as [s|] eqn:Es; [|discriminate].
-  destruct (oauth_callback canon PROXY_KEY r) as [st|s' loc] eqn:Ecb.
+  destruct (oauth_callback canon strict PROXY_KEY r) as [st|s' loc] eqn:Ecb.
   { apply negb_false_iff in Hm. apply andb_true_iff in Hm as [Hm _]. apply andb_true_iff in Hm as [_ Hm]. discriminate. }
   apply negb_false_iff in Hm. apply andb_true_iff in Hm as [Hm Hloc]. apply andb_true_iff in Hm as [Hm Hcsrf].
   apply andb_true_iff in Hm as [_ Hsess]. apply session_opt_eqb_some in Hsess. inversion Hsess; subst s'. clear Hsess.
   apply str_eqb_eq in Hloc.
   apply callback_ok_iff in Ecb.
-  destruct Ecb as (v1 & n1 & p1 & v2 & n2 & p2 & email & Hs & Hc & Hcan & Hne & Hj & Hf & He & Hcode & Hr & Hem & Hv & Hsv & Hl).
+  destruct Ecb as (v1 & n1 & p1 & v2 & n2 & p2 & email & Hs & Hc & Hcan & Hne & Hj & Hstr & Hf & He & Hcode & Hr & Hem & Hv & Hsv & Hl).
   unfold req_derivable in Hd. rewrite Hs, Hc in Hd. apply andb_true_iff in Hd as [Hd1 Hd2].
   pose proof (wire_derivable_In _ _ _ _ _ Hd1) as Hi1. pose proof (wire_derivable_In _ _ _ _ _ Hd2) as Hi2.
   (* the clauses that hold whatever the payloads are *)
@@ -194,5 +194,6 @@ Proof.
   - exfalso. subst f2. apply (W2 empty_flow); [eapply W1; exact Hi2 | reflexivity].
   - (* two sealed sessions: the type confusion *)
     rewrite !andb_false_r. cbn [negb andb]. rewrite <- Hloc, Hl. cbn [empty_flow f_redirect].
-    rewrite str_eqb_refl, W4. right. reflexivity.
+    rewrite str_eqb_refl, W4. right. split; [reflexivity|].
+    destruct strict; [|reflexivity]. exfalso. apply Hstr; reflexivity.
 Qed.
